@@ -2151,16 +2151,16 @@ func ParseCertificates(asn1Data []byte) ([]*Certificate, error) {
 
 	for len(asn1Data) > 0 {
 		cert := new(certificate)
-		var err error
-		asn1Data, err = asn1.Unmarshal(asn1Data, cert)
+		rest, err := asn1.Unmarshal(asn1Data, cert)
 		if err != nil {
 			var laxErr error
-			asn1Data, laxErr = asn1.UnmarshalWithParams(asn1Data, &cert, "lax")
+			rest, laxErr = asn1.UnmarshalWithParams(asn1Data, cert, "lax")
 			if laxErr != nil {
 				return nil, laxErr
 			}
 			nfe.AddError(err)
 		}
+		asn1Data = rest
 		v = append(v, cert)
 	}
 
